@@ -7,6 +7,7 @@ mod c10;
 mod c12;
 mod c14;
 mod c15;
+mod c16;
 mod remotesim;
 mod c17;
 mod c18;
@@ -47,6 +48,7 @@ macro_rules! registry {
             "C13" => $mac!(pipechecks::C13),
             "C14" => $mac!(c14::C14),
             "C15" => $mac!(c15::C15),
+            "C16" => $mac!(c16::C16),
             "C17" => $mac!(c17::C17),
             "C18" => $mac!(c18::C18),
             "C19" => $mac!(c19::C19),
@@ -59,7 +61,7 @@ macro_rules! registry {
     };
 }
 
-pub const ALL_IDS: &[&str] = &["C01", "C02", "C03", "C04", "C05", "C06", "C07", "C08", "C09", "C10", "C12", "C13", "C14", "C15", "C17", "C18", "C19", "C20"];
+pub const ALL_IDS: &[&str] = &["C01", "C02", "C03", "C04", "C05", "C06", "C07", "C08", "C09", "C10", "C12", "C13", "C14", "C15", "C16", "C17", "C18", "C19", "C20"];
 
 fn arg_val(args: &[String], name: &str) -> Option<String> {
     args.iter()
